@@ -98,8 +98,10 @@ def main():
         cfgs = [("MC_RpycServe_2_h.cfg", "exhaustive: 2 clients; NoStall, NoHang, WillBeWoken, Termination"),
                 ("MC_RpycServe_1bg_h.cfg", "exhaustive: 1 client + background thread; NoStall"),
                 ("MC_RpycServe_2bg_h.cfg", "exhaustive: 2 clients + background thread; NoStall")]
+        cfgs += [("MC_RpycServe_2p_h.cfg", "exhaustive: 2 clients + 1 thread that only serves in a blocking loop (serve_threaded): NoStall")]
         if chk.thorough:
-            cfgs += [("MC_RpycServe_3_h.cfg", "exhaustive: 3 clients; NoStall")]
+            cfgs += [("MC_RpycServe_3_h.cfg", "exhaustive: 3 clients; NoStall"),
+                     ("MC_RpycServe_2pp_h.cfg", "exhaustive: 2 clients + 2 serving-only threads; NoStall")]
         for cfg, what in cfgs:
             res = tlc.require_ok(tlc.run_tlc("MC_RpycServe", cfg, coverage=True, timeout=3000), cfg)
             if res.violation:
@@ -115,6 +117,12 @@ def main():
                     "stall that was repaired)")
         if res.violation != "NoStall":
             raise tlc.MachineryError("expected the model of the pinned serve() to violate NoStall, got %r" % res.violation)
+        res = tlc.require_ok(tlc.run_tlc("MC_RpycServe", "MC_RpycServe_2p_pinned.cfg", workers=1), "2p pinned")
+        chk.add_tlc(res, "NoStall with a serving-only thread in the model of the PINNED serve(): counterexample - the caveat in "
+                    "serve_threaded()'s docstring (a sync request made by one of its threads may time out because another of them "
+                    "received the reply)")
+        if res.violation != "NoStall":
+            raise tlc.MachineryError("expected the pinned serve() with a serving-only thread to violate NoStall, got %r" % res.violation)
     else:
         # 1. the design: every stall the model can reach has the known hand-off shape
         cfgs = [("MC_RpycServe_2.cfg", "exhaustive: 2 clients; OnlyKnownStalls, NoHang, WillBeWoken"),
@@ -149,6 +157,8 @@ def main():
     plan = [("1bg", 150, 600, 2), ("2", 150, 500, 2), ("2bg", 100, 300, 2)]
     if chk.thorough:
         plan = [("1bg", 500, 5000, 3), ("2", 500, 6000, 3), ("2bg", 500, 4000, 2), ("3", 400, 4000, 2), ("3bg", 400, 1000, 1)]
+    if repaired:
+        plan += [("2p", 100, 300, 2)] if not chk.thorough else [("2p", 400, 3000, 2), ("1pp", 300, 2000, 2), ("2pp", 300, 1000, 1)]
     for cfgname, nr, nd, bound in plan:
         traces = sc.explore(chk, cfgname, nr, nd, bound, False, on_result)
         r = sc.validate(chk, cfgname, [norm(t) for t in traces])
